@@ -1559,11 +1559,11 @@ class Parameter(_ParameterBase):
             ref, deps, val, is_async = obj.param._resolve_ref(self, val)
             refs = obj._param__private.refs
             if ref is not None:
-                relink = partial(self.owner.param._update_ref, name, ref)
+                relink = partial(obj.param._update_ref, name, ref)
             elif name in refs and not syncing:
                 # drops the link together with the watchers installed on its
                 # sources (and cancels a pending asynchronous reference)
-                relink = partial(self.owner.param._update_ref, name, Undefined)
+                relink = partial(obj.param._update_ref, name, Undefined)
             if is_async or val is Undefined:
                 # (the link of an async reference is installed by _resolve_ref)
                 if relink is not None and not is_async:
